@@ -6,7 +6,10 @@ Definitions (right unfolding; these are the meaning of the ghost functions, not 
     Pprod(a, lo, hi) = 1 if hi <= lo;  Pprod(a, lo, h+1) = Pprod(a, lo, h) * a[h] if h >= lo
 Each lemma L(hi) is proved by induction on hi: base case at the smallest hi, step L(h) => L(h+1), with every other
 variable universally quantified (free constants).  The induction principle over the integers >= base is the only
-meta-level step.  Proved here: split, single, pair, congruence under index shift (W and Pprod), positivity (Pprod)."""
+meta-level step.  Proved here: split, single, pair, congruence under index shift (W and Pprod), positivity (Pprod), and
+the selection lemmas of a filtering comprehension (theories/alg.py filter_comprehension, lem_filter_prefix/suffix):
+a strictly increasing selection idx of n out of n0 positions, onto the kept positions, satisfies
+k <= idx(k) <= n0 - n + k, fixes a prefix of kept positions and maps the tail onto a suffix of kept positions."""
 from __future__ import annotations
 
 import z3
@@ -102,3 +105,45 @@ def prod_lemmas(ck, T=None):
         S.oblige('lemma-base', P(a, lo, lo) >= 0, tag='Pprod-non-negative')
         S.oblige('lemma-step', z3.Implies(z3.And(lo <= h, nn, P(a, lo, h) >= 0), P(a, lo, h + 1) >= 0), tag='Pprod-non-negative')
     ck.explore('lemmas.Pprod-fold', body, T, label='induction')
+
+
+def selection_lemmas(ck, T=None):
+    from pyvc.theory import Theory
+    T = T or Theory()
+
+    def body(S):
+        idx = z3.Function('idx', z3.IntSort(), z3.IntSort())
+        inv = z3.Function('inv', z3.IntSort(), z3.IntSort())
+        K = z3.Function('kept', z3.IntSort(), z3.BoolSort())
+        n, n0, k, k2, j, m, t = z3.Ints('n n0 k k2 j m t')
+        # definition of the filtered list (as assumed by filter_comprehension)
+        S.assume(z3.And(n >= 0, n <= n0))
+        S.assume(z3.ForAll([k], z3.Implies(z3.And(k >= 0, k < n), z3.And(idx(k) >= 0, idx(k) < n0, K(idx(k)))), patterns=[idx(k)]))
+        S.assume(z3.ForAll([k, k2], z3.Implies(z3.And(k >= 0, k < k2, k2 < n), idx(k) < idx(k2))))
+        S.assume(z3.ForAll([j], z3.Implies(z3.And(j >= 0, j < n0, K(j)), z3.And(inv(j) >= 0, inv(j) < n, idx(inv(j)) == j)),
+                           patterns=[inv(j)]))
+        # L1: idx(k) >= k            (induction on k)
+        L1 = lambda kk: z3.Implies(z3.And(0 <= kk, kk < n), idx(kk) >= kk)       # noqa: E731
+        S.oblige('lemma-base', L1(z3.IntVal(0)), tag='selection-lower-bound')
+        S.oblige('lemma-step', z3.Implies(z3.And(k >= 0, L1(k)), L1(k + 1)), tag='selection-lower-bound')
+        # L2: idx(k) <= n0 - n + k   (downward induction from k = n - 1)
+        L2 = lambda kk: z3.Implies(z3.And(0 <= kk, kk < n), idx(kk) <= n0 - n + kk)       # noqa: E731
+        S.oblige('lemma-base', L2(n - 1), tag='selection-upper-bound')
+        S.oblige('lemma-step', z3.Implies(z3.And(k >= 0, L2(k + 1)), L2(k)), tag='selection-upper-bound')
+        # from here on L1 and L2 are available for every k
+        S.assume(z3.ForAll([k], L1(k), patterns=[idx(k)]))
+        S.assume(z3.ForAll([k], L2(k), patterns=[idx(k)]))
+
+        def L3(mm):          # a prefix of mm kept positions stays in place
+            return z3.Implies(z3.And(0 <= mm, mm <= n0, z3.ForAll([j], z3.Implies(z3.And(0 <= j, j < mm), K(j)))),
+                              z3.And(mm <= n, z3.ForAll([j], z3.Implies(z3.And(0 <= j, j < mm), idx(j) == j))))
+        S.oblige('lemma-base', L3(z3.IntVal(0)), tag='selection-fixes-a-kept-prefix')
+        S.oblige('lemma-step', z3.Implies(z3.And(m >= 0, L3(m)), L3(m + 1)), tag='selection-fixes-a-kept-prefix')
+
+        def L4(mm):          # a suffix [mm, n0) of kept positions is the image of the tail
+            d = n - (n0 - mm)
+            return z3.Implies(z3.And(0 <= mm, mm <= n0, z3.ForAll([j], z3.Implies(z3.And(mm <= j, j < n0), K(j)))),
+                              z3.And(d >= 0, z3.ForAll([t], z3.Implies(z3.And(0 <= t, t < n0 - mm), idx(d + t) == mm + t))))
+        S.oblige('lemma-base', L4(n0), tag='selection-maps-the-tail-onto-a-kept-suffix')
+        S.oblige('lemma-step', z3.Implies(z3.And(m >= 0, m < n0, L4(m + 1)), L4(m)), tag='selection-maps-the-tail-onto-a-kept-suffix')
+    ck.explore('lemmas.selection', body, T, label='induction')
